@@ -25,6 +25,8 @@ type generator struct {
 // profile: relative weights of step kinds and tx kinds for the property being checked.
 type profile struct {
 	tx, block, resubmit, offchain, restart int
+	relay, claims                          int
+	relayMut, forge                        float64
 	kinds                                  map[string]int
 	badSig, badKey, badFee                 float64
 	midBlockInterf                         float64
@@ -32,7 +34,7 @@ type profile struct {
 }
 
 func baseProfile() profile {
-	return profile{tx: 55, block: 28, resubmit: 3, offchain: 4, restart: 1,
+	return profile{tx: 55, block: 28, resubmit: 3, offchain: 4, restart: 1, relay: 5, claims: 5, relayMut: 0.1, forge: 0.05,
 		kinds: map[string]int{"send": 30, "node_stake": 14, "node_unstake": 6, "node_unjail": 5, "app_stake": 8, "app_unstake": 3,
 			"gov_param": 6, "gov_dao": 4, "gov_upgrade": 1},
 		badSig: 0.06, badKey: 0.08, badFee: 0.08}
@@ -66,6 +68,18 @@ func profileFor(prop string) profile {
 		p.kinds["app_stake"], p.kinds["app_unstake"] = 60, 20
 	case "C04", "C12":
 		p.restart = 6
+	case "C26", "C29", "C31", "C32":
+		p.tx, p.relay, p.claims, p.block = 25, 22, 22, 40
+	case "C30":
+		p.tx, p.relay, p.claims, p.block, p.forge = 25, 22, 22, 40, 0.6
+	case "C33":
+		p.relay, p.claims, p.restart = 30, 6, 4
+		p.kinds["node_stake"], p.kinds["node_unjail"] = 30, 15
+	case "C35":
+		p.tx, p.relay, p.claims, p.relayMut = 25, 40, 6, 0.7
+	}
+	if prop == "C13" {
+		p.relay, p.claims = 15, 10
 	}
 	return p
 }
@@ -83,6 +97,13 @@ func tuneForProperty(c *Config, prop string, r *core.Rand) {
 	case "C25":
 		c.DowntimeJailSecs = int64([]int{60, 1800}[r.Intn(2)])
 		c.MaxJailedBlocks = int64(r.Range(3, 10))
+	case "C26", "C29", "C30", "C31", "C32", "C33", "C35", "C13":
+		// relay traffic needs applications whose allowance covers tens of relays per node
+		c.BaseRelaysPerPOKT = int64([]int{20000, 200000}[r.Intn(2)])
+		c.ClaimExpiration = int64(r.Range(8, 30))
+		if prop == "C26" && r.Chance(0.5) {
+			delete(c.Features, "RSCAL") // reward formula exact in integers
+		}
 	}
 	if prop == "C43" && r.Chance(0.6) {
 		// the features that add ACL keys at activation make every later export un-importable (a
@@ -149,7 +170,7 @@ func (s *Sim) keyIndexOf(addr string) int {
 
 func (g *generator) next() *Step {
 	p := g.prof
-	w := []int{p.tx, p.block, p.resubmit, p.offchain, p.restart}
+	w := []int{p.tx, p.block, p.resubmit, p.offchain, p.restart, p.relay, p.claims}
 	if g.sinceBlock > 10 {
 		w[1] += 200
 	}
@@ -168,9 +189,50 @@ func (g *generator) next() *Step {
 	case 3:
 		q := g.genInterf("")
 		return &Step{Op: "offchain", Q: &q}
-	default:
+	case 4:
 		return &Step{Op: "restart"}
+	case 5:
+		return g.genRelay()
+	default:
+		return g.genClaims()
 	}
+}
+
+func (g *generator) genRelay() *Step {
+	r, s, c := g.r, g.s, g.s.cfg
+	st := &Step{Op: "relay", From: appBase + r.Intn(c.NApps), Amount: int64(r.Range(5, 40))}
+	if r.Chance(0.15) {
+		st.Amount = int64(r.Range(1, 140))
+	}
+	chain := c.Chains[0]
+	if v := s.committedView; v != nil {
+		// follow a transferred application to its new key if there is one
+		if a, ok := v.Apps[s.key(st.From).String()]; ok && len(a.Chains) > 0 {
+			chain = a.Chains[r.Intn(len(a.Chains))]
+		}
+	}
+	st.Chains = []string{chain}
+	if r.Chance(g.prof.relayMut) {
+		st.Action = relayMutations[r.Intn(len(relayMutations))]
+	}
+	return st
+}
+
+func (g *generator) genClaims() *Step {
+	r := g.r
+	st := &Step{Op: "claims"}
+	x := r.Float64()
+	switch {
+	case x < g.prof.forge*0.7:
+		st.Action = "forge:" + proofMutations[r.Intn(len(proofMutations)-1)]
+	case x < g.prof.forge:
+		st.Action = "dup-evidence"
+	case x < g.prof.forge+0.1:
+		st.Action = "claims-only"
+	case x < g.prof.forge+0.2:
+		st.Action = "proofs-only"
+	}
+	return st
 }
 
 func (g *generator) genResubmit() *Step {
@@ -225,6 +287,16 @@ func (g *generator) genInterf(phase string) Interf {
 		tx := g.genTx()
 		if r.Chance(0.5) {
 			tx.Sig = []string{"none", "flip", "ok"}[r.Intn(3)]
+		}
+		if r.Chance(0.12) {
+			// simulating an upgrade must be as harmless as simulating anything else; a simulation
+			// never reaches a block, so version upgrades (kept out of blocks, DESIGN §7) are fair game
+			tx.Kind, tx.From, tx.SignKey = "gov_upgrade", g.s.cfg.OwnerKey, g.s.cfg.OwnerKey
+			if r.Chance(0.5) {
+				tx.Upgrade = &UpgradeSpec{Height: g.s.drv.Height + int64(r.Range(1, 40)), Version: fmt.Sprintf("0.%d.0", r.Range(13, 20))}
+			} else {
+				tx.Upgrade = &UpgradeSpec{Height: 1, Version: "FEATURE", Features: []string{fmt.Sprintf("%s:%d", allFeatures[r.Intn(len(allFeatures))], g.s.drv.Height+int64(r.Range(1, 40)))}}
+			}
 		}
 		tx.ID = 0
 		q.Tx = tx
@@ -525,7 +597,10 @@ func (g *generator) genParam() (string, string) {
 		{"pocketcore/ClaimExpiration", q(int64(r.Range(4, 40)))},
 		{"pocketcore/SessionNodeCount", q(int64(r.Range(1, 5)))},
 		{"pocketcore/ClaimSubmissionWindow", q(int64(r.Range(1, 4)))},
-		{"pocketcore/MinimumNumberOfProofs", q(int64(r.Range(1, 10)))},
+		// never 1: with a minimum of one proof the node builds a merkle tree over a single relay and
+		// panics (types/merkle.go root: "dataLength must be > 1 or this breaks"), in production inside
+		// the EndBlock goroutine, which ends the process; no listed property covers that crash
+		{"pocketcore/MinimumNumberOfProofs", q(int64(r.Range(2, 10)))},
 		{"auth/MaxMemoCharacters", q(int64(r.Range(10, 200)))},
 		{"pos/UnstakingTime", q(int64(r.Range(1, 7200)) * 1_000_000_000)},
 		{"pos/DowntimeJailDuration", q(int64(r.Range(60, 7200)) * 1_000_000_000)},
